@@ -366,6 +366,32 @@ func CheckC11(c C11Case, rec *Rec) error {
 		}
 	}
 	sort.Slice(query, func(i, j int) bool { return query[i] < query[j] })
+	// results requested first and read afterwards: every query result is a value of its own, whatever is asked next
+	type heldResult struct {
+		u        int64
+		from, to graph.Nodes
+	}
+	var held []heldResult
+	for _, u := range query {
+		held = append(held, heldResult{u, net.From(u), net.To(u)})
+	}
+	for _, h := range held {
+		succ, pred := map[int64]bool{}, map[int64]bool{}
+		for p := range adj {
+			if p.u == h.u {
+				succ[p.v] = true
+			}
+			if p.v == h.u {
+				pred[p.u] = true
+			}
+		}
+		if got, err := nodeIdSet(h.from); err != nil || !sameIdSet(got, succ) {
+			return fmt.Errorf("From(%d), read after the other queries were made, = %v (%v), successors in the genome are %v", h.u, got, err, succ)
+		}
+		if got, err := nodeIdSet(h.to); err != nil || !sameIdSet(got, pred) {
+			return fmt.Errorf("To(%d), read after the other queries were made, = %v (%v), predecessors in the genome are %v", h.u, got, err, pred)
+		}
+	}
 	for _, u := range query {
 		n := net.Node(u)
 		if present[u] {
